@@ -55,6 +55,8 @@ type c02 struct {
 	other *world.SignKey // a second published key of the same family (when the shape has one)
 	shape string
 	step  int
+	// private key registered for the client that delegated assertions name as subject (not as issuer)
+	subjectKey jose.JSONWebKey
 }
 
 func (c *c02) viol(rule, site, format string, a ...any) {
@@ -196,6 +198,15 @@ var tamperOps = []tamperOp{
 		k, _ := unrelatedKey(g.pub)
 		_, p, _ := splitJWT(g.token)
 		return signWith(dec(p), g.alg, k, "", nil), false
+	}},
+	{"resign-with-key-of-named-subject", func(g *genuine, c *c02) (string, bool) {
+		// an assertion whose subject is another registered client than its issuer, signed by the subject's own
+		// registered key: the key must be the issuer's
+		if g.surface != "delegated-assertion" {
+			return "", false
+		}
+		_, p, _ := splitJWT(g.token)
+		return signWith(dec(p), jose.RS256, c.subjectKey.Key, c.subjectKey.KeyID, nil), false
 	}},
 	{"swap-kid-to-other-published-key", func(g *genuine, c *c02) (string, bool) {
 		if c.other == nil || g.surface == "client-assertion" || g.surface == "request-object" {
@@ -387,6 +398,13 @@ func RunC02(t *testing.T, spec kernel.Spec) *kernel.Outcome {
 		assertion := w.Assertion("jwt", "jwt", "jwt", []string{w.Issuer}, now, now.Add(time.Hour), ck)
 		roPayload := fmt.Sprintf(`{"iss":"jwt","aud":[%q],"client_id":"jwt","response_type":"code","state":"from-object","scope":"openid email"}`, w.Issuer)
 		requestObject := signRaw([]byte(roPayload), jose.RS256, ck.Key, ck.KeyID)
+		// a second client with a registered key, named as subject of delegated assertions issued by client jwt
+		c.subjectKey = world.FixtureKey("rsa", 5)
+		c.subjectKey.KeyID = "web-key-1"
+		subPub := c.subjectKey.Public()
+		w.Store.Clients["web"].Key = &subPub
+		delegated := w.Assertion("jwt", "web", "jwt", []string{w.Issuer}, now, now.Add(time.Hour), ck)
+		delegVerifier := op.NewJWTProfileVerifier(w.OP.Storage, w.Issuer, time.Hour, time.Second, op.SubjectCheck(func(*oidc.JWTTokenRequest) error { return nil }))
 		surfaces := []*genuine{
 			{surface: "rp-id-token", token: s.tokens.IDToken, key: cur.Priv, pub: cur.Pub, alg: cur.Alg, kid: cur.KID, deliver: func(tok string) (bool, string, string) {
 				claims, err := rp.VerifyIDToken[*oidc.IDTokenClaims](context.Background(), tok, idv)
@@ -423,6 +441,13 @@ func RunC02(t *testing.T, spec kernel.Spec) *kernel.Outcome {
 				}
 				return ok, sub, firstLine(r.Body)
 			}},
+			{surface: "delegated-assertion", token: delegated, key: ck.Key, pub: ck.Public().Key, alg: jose.RS256, kid: ck.KeyID, deliver: func(tok string) (bool, string, string) {
+				req, err := op.VerifyJWTAssertion(context.Background(), tok, delegVerifier)
+				if err != nil {
+					return false, "", err.Error()
+				}
+				return true, req.Issuer, ""
+			}},
 			{surface: "request-object", token: requestObject, key: ck.Key, pub: ck.Public().Key, alg: jose.RS256, kid: ck.KeyID, deliver: func(tok string) (bool, string, string) {
 				q := url.Values{"client_id": {"jwt"}, "redirect_uri": {"https://jwt.sim/callback"}, "response_type": {"code"}, "scope": {"openid"}, "state": {"plain"}, "request": {tok}}
 				r := b.Get(w.Issuer + "/authorize?" + q.Encode())
@@ -435,7 +460,7 @@ func RunC02(t *testing.T, spec kernel.Spec) *kernel.Outcome {
 				return false, "", firstLine(r.Body)
 			}},
 		}
-		genuineSub := map[string]string{"rp-id-token": "u1", "op-access-token": "u1", "op-id-token-hint": "u1", "client-assertion": "jwt", "request-object": "jwt"}
+		genuineSub := map[string]string{"rp-id-token": "u1", "op-access-token": "u1", "op-id-token-hint": "u1", "client-assertion": "jwt", "request-object": "jwt", "delegated-assertion": "jwt"}
 		// expand the HMAC operator
 		var ops []tamperOp
 		for _, op0 := range tamperOps {
@@ -478,7 +503,7 @@ func RunC02(t *testing.T, spec kernel.Spec) *kernel.Outcome {
 				if top.name == "identity" {
 					if !accepted {
 						// the genuine token must be believed - unless the published key set is itself ambiguous or unusable for it
-						if c.shape == "two-nokid" && g.surface != "client-assertion" && g.surface != "request-object" {
+						if c.shape == "two-nokid" && g.surface != "client-assertion" && g.surface != "request-object" && g.surface != "delegated-assertion" {
 							o.Probe("genuine-rejected-ambiguous-keyset")
 						} else {
 							c.viol("genuine-rejected", site, "the unmodified %s was rejected (alg %s, key-set shape %s): %s", g.surface, w.SigAlg, c.shape, detail)
@@ -520,7 +545,7 @@ func RunC02(t *testing.T, spec kernel.Spec) *kernel.Outcome {
 			}
 		}
 		o.Log = append([]string{fmt.Sprintf("config: router=%s alg=%s shape=%s", w.Router, w.SigAlg, c.shape)}, o.Log...)
-		o.Sample = map[string]any{"seed": spec.Seed, "router": w.Router, "alg": string(w.SigAlg), "key_set_shape": c.shape, "operators": len(ops), "surfaces": 5}
+		o.Sample = map[string]any{"seed": spec.Seed, "router": w.Router, "alg": string(w.SigAlg), "key_set_shape": c.shape, "operators": len(ops), "surfaces": len(surfaces)}
 		o.Trace = []string{fmt.Sprintf("router=%s alg=%s shape=%s", w.Router, w.SigAlg, c.shape)}
 	})
 	o.Nontrivial = o.Probes["genuine-accepted"] > 0 && o.Probes["tampered-rejected"] > 0
